@@ -47,21 +47,24 @@ type peerIdentity struct {
 }
 
 func deserializePeer(s string) (id peerIdentity, complete bool, err error) {
+	// The ip may itself contain ':' (IPv6), so the peer id is taken from the
+	// front and port / complete bit from the back of the encoding.
 	parts := strings.Split(s, ":")
-	if len(parts) != 4 {
+	if len(parts) < 4 {
 		return id, false, fmt.Errorf("invalid peer encoding: expected 'pid:ip:port:complete'")
 	}
+	n := len(parts)
 	peerID, err := core.NewPeerID(parts[0])
 	if err != nil {
 		return id, false, fmt.Errorf("parse peer id: %s", err)
 	}
-	ip := parts[1]
-	port, err := strconv.Atoi(parts[2])
+	ip := strings.Join(parts[1:n-2], ":")
+	port, err := strconv.Atoi(parts[n-2])
 	if err != nil {
 		return id, false, fmt.Errorf("parse port: %s", err)
 	}
 	id = peerIdentity{peerID, ip, port}
-	complete = parts[3] == "1"
+	complete = parts[n-1] == "1"
 	return id, complete, nil
 }
 
